@@ -202,37 +202,61 @@ def run(ctx):
         else:
             ctx.violation("R15.2", key, "creation of a %s is not guarded by a SHA1 lookup of the same object (lookup=%s guarded=%s "
                           "same-object=%s)" % (newcls, bool(finds), guarded, same), file=f.file, line=f.line)
+        from sa import paths as P_
+        from sa.inline import expand as _expand
+
         fb = c.methods.get("_find_by_sha1")
-        found = False
-        if fb is not None:
-            param = fb.node.args.args[1].arg if len(fb.node.args.args) > 1 else None
-            for n in ast.walk(fb.node):
-                if isinstance(n, ast.For) and dotted(n.iter) == "self" and isinstance(n.target, ast.Name):
-                    v = n.target.id
-                    for m in ast.walk(n):
-                        if isinstance(m, ast.If) and isinstance(m.test, ast.Compare) and isinstance(m.test.ops[0], ast.Eq) \
-                                and {dotted(m.test.left), dotted(m.test.comparators[0])} == {v + ".sha1", param} \
-                                and any(isinstance(r, ast.Return) and dotted(r.value) == v for r in m.body):
-                            found = True
-        if found:
+        if fb is None:
+            raise AnalysisError("anchor vanished: %s._find_by_sha1" % cname)
+        fbx = _expand(prog, fb, local_only=True)
+        param = fb.node.args.args[1].arg if len(fb.node.args.args) > 1 else None
+        found, seen_loop = False, False
+        for n in ast.walk(fbx):
+            if isinstance(n, ast.For) and dotted(n.iter) == "self" and isinstance(n.target, ast.Name):
+                seen_loop = True
+                v = n.target.id
+                for r in P_.outcomes(n.body, P_.aliases(fbx)):
+                    if r.end == "return" and r.value == v and P_.implied(r.facts, lambda a_: a_[0] == "cmp" and a_[1] == "Eq" and a_[4] is True
+                                                                           and {a_[2], a_[3]} == {v + ".sha1", param}):
+                        found = True
+        if not seen_loop:
+            ctx.error("%s._find_by_sha1" % cname, "scan over the existing parts not recognised")
+        elif found:
             ctx.ok("R15.2", "%s._find_by_sha1" % cname, sample={"scan": "for part in self: if part.sha1 == sha1: return part"})
         else:
             ctx.violation("R15.2", "%s._find_by_sha1" % cname, "lookup does not compare the digest of every existing part and return "
-                          "the match", file=pk.relpath, line=fb.line if fb else 1)
+                          "the match", file=pk.relpath, line=fb.line)
         # the scan covers every part reachable by an image / media relationship of the whole package
         it = c.methods.get("__iter__")
+        if it is None:
+            raise AnalysisError("anchor vanished: %s.__iter__" % cname)
         want = {"_ImageParts": {"RT.IMAGE"}, "_MediaParts": {"RT.MEDIA", "RT.VIDEO"}}[cname]
-        whole = it is not None and any(isinstance(n, ast.For) and isinstance(n.iter, ast.Call) and dotted(n.iter.func) == "self._package.iter_rels"
-                                       for n in ast.walk(it.node))
-        got = set()
-        skips_on_mismatch = False
-        for n in ast.walk(it.node) if it else []:
-            if isinstance(n, ast.If) and isinstance(n.test, ast.Compare) and dotted(n.test.left) == "rel.reltype":
-                op, cmpv = n.test.ops[0], n.test.comparators[0]
-                names = [dotted(e) for e in cmpv.elts] if isinstance(cmpv, (ast.Tuple, ast.List)) else [dotted(cmpv)]
-                if isinstance(op, (ast.NotEq, ast.NotIn)) and any(isinstance(b, ast.Continue) for b in n.body):
-                    got |= set(names)
-                    skips_on_mismatch = True
+        itx = _expand(prog, it, local_only=True)
+        ial, ival = P_.aliases(itx), P_.value_aliases(itx)
+        loops_ = [n for n in ast.walk(itx) if isinstance(n, ast.For) and isinstance(n.iter, ast.Call) and P_.norm(n.iter.func, ial) == "self._package.iter_rels"
+                  and isinstance(n.target, ast.Name)]
+        whole = bool(loops_)
+        got, skips_on_mismatch = set(), False
+        for lp in loops_:
+            rv = lp.target.id
+            for pth in P_.enum_paths(lp.body):
+                if not any(isinstance(x, ast.Yield) for st in pth.stmts() for x in ast.walk(st)):
+                    continue
+                for a_ in P_.facts(pth, None, ial):
+                    # what the path has established about the relationship type before it hands the part out
+                    alts = [a_] if a_[0] != "or" else [x for alt in a_[1] for x in alt]
+                    for x in alts:
+                        if x[0] == "cmp" and x[1] in ("Eq", "NotEq") and x[2] == rv + ".reltype" and x[4] is (x[1] == "Eq"):
+                            got.add(x[3])
+                            skips_on_mismatch = True
+                        if x[0] == "in" and x[1] == rv + ".reltype" and x[3] is True:
+                            names = ast.parse(P_.full(x[2], ival), mode="eval").body
+                            if isinstance(names, (ast.Tuple, ast.List, ast.Set)):
+                                got |= {dotted(e) for e in names.elts}
+                                skips_on_mismatch = True
+        if not whole:
+            ctx.error("%s.__iter__" % cname, "walk over the package relationships not recognised")
+            continue
         if whole and skips_on_mismatch and want <= got:
             ctx.ok("R15.2", "%s.__iter__" % cname, sample={"walks": "self._package.iter_rels()", "keeps": sorted(got)})
         else:
@@ -433,14 +457,44 @@ def run(ctx):
                           % (sorted(w), sorted(h)), file=ns.file, line=ns.line)
     # Image.dpi: component k of the normalised dpi comes from component k of Pillow's dpi
     dp = img.methods.get("dpi")
-    norm_fn = [n for n in ast.walk(dp.node) if isinstance(n, ast.FunctionDef) and n.name == "normalize_pil_dpi"] if dp else []
-    good = False
-    if norm_fn:
-        pn = norm_fn[0].args.args[0].arg
-        r2 = comp_deps(ast.Module(body=[st for st in ast.walk(norm_fn[0]) if isinstance(st, ast.Return) and isinstance(st.value, ast.Tuple)
-                                        and not all(isinstance(e, ast.Constant) for e in st.value.elts)][:1], type_ignores=[]), {pn: "pil"})
-        good = r2 is not None and len(r2) == 2 and flat(r2[0]) == {("pil", 0)} and flat(r2[1]) == {("pil", 1)}
-    if good:
+    if dp is None:
+        raise AnalysisError("anchor vanished: Image.dpi")
+    from sa import paths as P_
+    from sa.inline import expand as _expand
+
+    dx = _expand(prog, dp, depth=3)   # nested / extracted normalisation helpers read in place
+    dval = P_.value_aliases(dx)
+    assigns = {}
+    for n in walk_own(dx):
+        if isinstance(n, ast.Assign):
+            for t in n.targets:
+                if isinstance(t, ast.Name):
+                    assigns.setdefault(t.id, []).append(n.value)
+
+    def is_pil(e):
+        return P_.full(e, dval) == "self._pil_props[2]"
+
+    def flow(e, seen):
+        """indexes k such that pil_dpi[k] flows into e (backward over every assignment of the names e mentions)"""
+        out = set()
+        for x in ast.walk(e):
+            if isinstance(x, ast.Subscript) and isinstance(x.slice, ast.Constant) and isinstance(x.slice.value, int) and is_pil(x.value):
+                out.add(x.slice.value)
+            elif isinstance(x, ast.Name) and x.id not in seen:
+                seen.add(x.id)
+                for v in assigns.get(x.id, []):
+                    if not is_pil(v):
+                        out |= flow(v, seen)
+        return out
+
+    tuples_ = [n.value for n in walk_own(dx) if isinstance(n, ast.Return) and isinstance(n.value, ast.Tuple) and len(n.value.elts) == 2
+               and not all(isinstance(prog.const(e, dp.module), int) for e in n.value.elts)]
+    good = None
+    if tuples_:
+        good = all(flow(t.elts[0], set()) == {0} and flow(t.elts[1], set()) == {1} for t in tuples_)
+    if good is None:
+        ctx.error("Image.dpi", "the returned (horz, vert) pair computed from Pillow's dpi is not recognised")
+    elif good:
         ctx.ok("R15.4", "Image.dpi", sample={"horz": "pil_dpi[0]", "vert": "pil_dpi[1]"})
     else:
         ctx.violation("R15.4", "Image.dpi", "normalised (horz, vert) dpi is not taken component-wise from Pillow's dpi", file=img.file,
